@@ -2756,6 +2756,13 @@ class ChannelManager:
         # Process the response
         channel.on_connection_response(response)
 
+        # Remember the channel by destination CID right away: the peer may send
+        # credits immediately after its response
+        if channel.state == LeCreditBasedChannel.State.CONNECTED:
+            self.le_coc_channels.setdefault(connection.handle, {})[
+                channel.destination_cid
+            ] = channel
+
     def on_l2cap_credit_based_connection_request(
         self,
         connection: Connection,
@@ -2886,6 +2893,12 @@ class ChannelManager:
         # Process the response
         for channel, destination_cid in zip(channels, response.destination_cid):
             channel.on_enhanced_connection_response(destination_cid, response)
+            # Remember the channel by destination CID right away: the peer may send
+            # credits immediately after its response
+            if channel.state == LeCreditBasedChannel.State.CONNECTED:
+                self.le_coc_channels.setdefault(connection.handle, {})[
+                    destination_cid
+                ] = channel
 
         if (
             response.result
